@@ -50,6 +50,15 @@ func (c *cycleCase) build() (*sfnt.Font, error) {
 // runCycle evaluates one clause-(a) case: the case line, the implementation's
 // observation in the model's syntax, the oracle's failures.
 func runCycle(c *cycleCase) (line, impl string, fails []*failure, labels []string, err error) {
+	defer func() {
+		if e := recover(); e != nil {
+			// a panic outside the guarded calls of the code under test: the
+			// harness itself failed on this case
+			line = "!" + v.Line(v.Atom("cycle"), c.T.sx(), c.S.sx())
+			impl, err = "-", nil
+			fails = append(fails, &failure{"harness-panic", fmt.Sprint(e)})
+		}
+	}()
 	f, err := c.build()
 	if err != nil {
 		return "", "", nil, nil, err
@@ -57,7 +66,25 @@ func runCycle(c *cycleCase) (line, impl string, fails []*failure, labels []strin
 	head := v.Line(v.Atom("cycle"), c.T.sx(), c.S.sx())
 	labels = append(labels, "a:tpl="+strings.SplitN(c.T.Name, ":", 2)[0], "a:cmap="+c.T.CMap)
 	if c.T.Layout != "-" {
-		labels = append(labels, "a:layout")
+		labels = append(labels, "a:layout="+c.T.Layout)
+	}
+	if o, ok := f.Outlines.(*glyf.Outlines); ok {
+		for _, g := range o.Glyphs {
+			if g != nil {
+				if _, comp := g.Data.(glyf.CompositeGlyph); comp {
+					labels = append(labels, "a:composite-glyphs")
+					break
+				}
+			}
+		}
+		if o.Names != nil {
+			labels = append(labels, "a:glyph-names")
+		}
+	}
+	if n := f.NumGlyphs(); n >= 10000 {
+		labels = append(labels, "a:glyphs>=10000")
+	} else if n == 1 {
+		labels = append(labels, "a:glyphs=1")
 	}
 	fsx, perr := fontSx(f)
 	var canon string
@@ -422,6 +449,17 @@ type mergeCase struct {
 }
 
 func runMerge(c *mergeCase) (line, impl string, fails []*failure, labels []string, err error) {
+	defer func() {
+		if e := recover(); e != nil {
+			es := make(v.List, len(c.Edits))
+			for i, ed := range c.Edits {
+				es[i] = ed.sx()
+			}
+			line = "!" + v.Line(v.Atom("merge"), c.Src.sx(), es)
+			impl, err = "-", nil
+			fails = append(fails, &failure{"harness-panic", fmt.Sprint(e)})
+		}
+	}()
 	base, err := c.Src.bytes()
 	if err != nil {
 		return "", "", nil, nil, err
